@@ -684,6 +684,10 @@ pub trait Vec1View<T>: TIter<T> {
     {
         assert!(window > 0, "window must be greater than 0");
         let len = self.len();
+        assert!(
+            other.len() >= len,
+            "the second series is shorter than the first"
+        );
         let window = window.min(len);
         if window == 0 {
             return;
@@ -918,6 +922,10 @@ pub trait Vec1View<T>: TIter<T> {
     {
         assert!(window > 0, "window must be greater than 0");
         let len = self.len();
+        assert!(
+            other.len() >= len,
+            "the second series is shorter than the first"
+        );
         let window = window.min(len);
         if window == 0 {
             return;
